@@ -113,27 +113,33 @@ def parse_texts(ctx):
 
 def run_parse_family(ctx):
     texts, stats = parse_texts(ctx)
-    res = pr.run_parse(texts)
     drv = core.Driver()
-    ans = drv.ask([f"parse {pr.text_wire(t)}" for t in texts])
     diffs, oracle, internal = [], [], []
     kinds = {}
     nontrivial = 0
-    for (t, r, o), a in zip(res, ans):
-        m = pr.model_parse_answer(a)
-        k = r[1] if r[0] == "perr" else r[0]
-        kinds[k] = kinds.get(k, 0) + 1
-        if r[0] == "ok" and r[1][0] in "UB":
-            nontrivial += 1
-        elif r[0] in ("perr", "badchar"):
-            nontrivial += 1
-        if r[0] == "internal" or (r[0] == "perr" and r[1].startswith("internal")):
-            internal.append({"text": t, "impl": r})
-        if not pr.same_parse(r, m):
-            diffs.append({"text": t, "impl": r if r[0] != "ok" else core.tuple_str(r[1]),
-                          "model": m if m[0] != "ok" else core.tuple_str(m[1])})
-        if o is not None:
-            oracle.append({"text": t, "oracle": o, "impl": r if r[0] != "ok" else core.tuple_str(r[1])})
+    # processed in chunks so that the thorough tier (millions of strings) stays within memory
+    CH = 400000
+    for off in range(0, len(texts), CH):
+        chunk = texts[off: off + CH]
+        res = pr.run_parse(chunk)
+        ans = drv.ask([f"parse {pr.text_wire(t)}" for t in chunk])
+        for (t, r, o), a in zip(res, ans):
+            m = pr.model_parse_answer(a)
+            k = r[1] if r[0] == "perr" else r[0]
+            kinds[k] = kinds.get(k, 0) + 1
+            if r[0] == "ok" and r[1][0] in "UB":
+                nontrivial += 1
+            elif r[0] in ("perr", "badchar"):
+                nontrivial += 1
+            if r[0] == "internal" or (r[0] == "perr" and r[1].startswith("internal")):
+                internal.append({"text": t, "impl": r})
+            if not pr.same_parse(r, m):
+                diffs.append({"text": t, "impl": r if r[0] != "ok" else core.tuple_str(r[1]),
+                              "model": m if m[0] != "ok" else core.tuple_str(m[1])})
+            if o is not None:
+                oracle.append({"text": t, "oracle": o, "impl": r if r[0] != "ok" else core.tuple_str(r[1])})
+        del res, ans
+    res = None
     ctx.notes["generator"] = stats
     ctx.notes["outcome_kinds"] = kinds
     ctx.coverage["evaluations"] += len(texts)
@@ -311,11 +317,25 @@ def c04(ctx):
             start.append(r)
     recs = rules_run.run_impl(start)
     nres = 0
+    stale = []
     for rec in recs:
         for a in rec["apply"]:
             if a["impl"][0] == "ok":
                 add(a["impl"][1])
                 nres += 1
+                # the text of the REAL result object (the tree had been rendered before the rewrite):
+                # it must re-parse to the meaning of the result tree
+                txt = a.get("text")
+                if txt is not None:
+                    rp = pr.impl_parse(txt)
+                    if rp[0] != "ok":
+                        stale.append({"tree": core.tuple_str(a["impl"][1]), "text": txt, "rule": a["rule"],
+                                      "start": core.tuple_str(rec["tree"]), "problem": {"reparse": rp}})
+                    else:
+                        sm = same_meaning(core.strip_tags(a["impl"][1]), rp[1])
+                        if sm is not None:
+                            stale.append({"tree": core.tuple_str(a["impl"][1]), "text": txt, "rule": a["rule"],
+                                          "start": core.tuple_str(rec["tree"]), "problem": sm})
     ctx.notes["generator"] = {"trees": len(base), "of_which_rewrite_results": nres}
     procs = 16
     chunks = [base[i: i + 400] for i in range(0, len(base), 400)]
@@ -324,7 +344,7 @@ def c04(ctx):
     drv = core.Driver()
     ans = drv.ask([f"print {core.tuple_to_wire(o['tree'])}" for o in out])
     ans2 = drv.ask([f"reparse {core.tuple_to_wire(o['tree'])}" for o in out])
-    bad, tokdiff, rediff = [], [], []
+    bad, tokdiff, rediff = list(stale), [], []
     for o, a, a2 in zip(out, ans, ans2):
         if "print_exc" in o:
             bad.append({"tree": core.tuple_str(o["tree"]), "print_exception": o["print_exc"]})
